@@ -47,7 +47,7 @@ def run(ctx, module, cfg_text, name, adapter, what, preload=('quantity',), sigpr
     """adapter = (module name, factory name, args tuple)."""
     wd = tlc.new_workdir('%s-%s' % (module, name))
     dot = os.path.join(wd, 'graph.dot')
-    r = tlc.run(module, cfg_text=cfg_text, workdir=wd, tag='%s-%s' % (module, name), timeout=3000,
+    r = tlc.run(module, cfg_text=cfg_text, workdir=wd, tag='%s-%s' % (module, name), timeout=3000, workers=1,
                 extra=['-dump', 'dot,actionlabels', dot])
     ok = ctx.add_tlc(r, '%s[%s]: %s' % (module, name, what), exhaustive=True)
     if not ok:
